@@ -16,7 +16,7 @@ from vf import common, shard, boot
 PROP = "C18"
 RULE = ("one case = one process: a script of 4..10 statements cut at statement position k by one termination mode (fall off, "
         "sys.exit(0|None|3|'msg'), bare sys.exit(), uncaught exception, KeyboardInterrupt, raise SystemExit(0|1), builtin exit(0|1), "
-        "autoprove off) on one file-writing backend (snarkjs, zkinterface, qaptools); the whole matrix is enumerated for each script; "
+        "an intercepted sys.exit(0) followed by an exception / interrupt / sys.exit(3), autoprove off) on one file-writing backend (snarkjs, zkinterface, qaptools); the whole matrix is enumerated for each script; "
         "non-trivial = the process ran to its termination point and its artefacts, audit log, exit status and stderr were judged; "
         "distinct by (backend, script, position, mode); cell = backend x mode x position class (start / middle / end)")
 
@@ -34,6 +34,10 @@ MODES = {
     "keyboard_interrupt": ("raise KeyboardInterrupt()", False),
     "raise_systemexit_1": ("raise SystemExit(1)", False),
     "builtin_exit_1": ("exit(1)", False),
+    # multi-step terminations: an intercepted successful sys.exit followed by a failing end
+    "caught_exit0_then_exception": ("try:\n    sys.exit(0)\nexcept SystemExit:\n    pass\nraise ValueError('boom')", False),
+    "caught_exit_none_then_interrupt": ("try:\n    sys.exit()\nexcept SystemExit:\n    pass\nraise KeyboardInterrupt()", False),
+    "caught_exit0_then_exit3": ("try:\n    sys.exit(0)\nexcept SystemExit:\n    pass\nsys.exit(3)", False),
     "autoprove_off": ("import pysnark.runtime as _r\n_r.autoprove = False", None),
 }
 BACKENDS = {
